@@ -7,11 +7,13 @@ import (
 
 	"github.com/btcsuite/btcd/btcutil/hdkeychain"
 	"github.com/btcsuite/btcd/chaincfg"
+	"github.com/decred/dcrd/dcrec/secp256k1/v4"
 	"github.com/elnosh/gonuts/cashu"
 	"github.com/elnosh/gonuts/cashu/nuts/nut03"
 	"github.com/elnosh/gonuts/cashu/nuts/nut04"
 	"github.com/elnosh/gonuts/cashu/nuts/nut05"
 	"github.com/elnosh/gonuts/cashu/nuts/nut09"
+	"github.com/elnosh/gonuts/cashu/nuts/nut10"
 	"github.com/elnosh/gonuts/cashu/nuts/nut13"
 	"github.com/elnosh/gonuts/crypto"
 	v "github.com/elnosh/gonuts/verifrt"
@@ -668,4 +670,79 @@ func VHarnessRestoreContinue() {
 	v.Assert(ks.Counter >= c0, "C19 the keyset the restored wallet derives its next outputs from carries the restored counter")
 	v.Assert(uint(ks.InputFeePpk) == ppk, "C18 the restored wallet knows its mint's input fee")
 	v.Reach("continued")
+}
+
+// a proof the mint really signed for somebody else's blinded message, handed over with its DLEQ proof including the
+// blinding factor r (what a sender puts into a token when asked to include DLEQ data)
+func (e *vhWalletEnv) foreignProof(tag string, amount uint64, secret string) cashu.Proof {
+	r := v.Priv(tag + ".r")
+	B_, _, err := crypto.BlindMessage(secret, r)
+	v.Assume(err == nil)
+	bm := cashu.BlindedMessage{Amount: amount, Id: e.mint.Active, B_: hex.EncodeToString(B_.SerializeCompressed())}
+	sigs, ok := e.mint.sign(cashu.BlindedMessages{bm})
+	v.Assume(ok)
+	ks := e.w.mints[e.mint.URL].activeKeyset
+	proofs, err := constructProofs(sigs, cashu.BlindedMessages{bm}, []string{secret}, []*secp256k1.PrivateKey{r}, &ks)
+	v.Assume(err == nil)
+	return proofs[0]
+}
+
+// C08 / C17: receiving a token whose proofs carry DLEQ data (e, s, r) - plain or P2PK-locked to this wallet's key, in which
+// case the wallet attaches a witness before swapping. Nothing the wallet sends may contain r.
+func VHarnessWalletReceiveDLEQ() {
+	ppkA := uint(v.PickU64(v.U64("ppk.active"), 0, 1000))
+	env := vhNewWallet(ppkA, 0, 0)
+	defer env.close()
+	n := v.Int("nToken", 1, 2)
+	locked := v.Int("locked", 0, 1) == 1
+	var ps cashu.Proofs
+	total := v.ZU(0)
+	issued0 := len(env.mint.Sigs)
+	for i := 0; i < n; i++ {
+		e := v.U64(fmt.Sprintf("tok%d.exp", i))
+		v.Assume(e <= 2)
+		secret := fmt.Sprintf("token-secret-%d", i)
+		if locked {
+			s, serr := nut10.SerializeSecret(nut10.WellKnownSecret{Kind: nut10.P2PK, Data: nut10.SecretData{Nonce: fmt.Sprintf("nonce%d", i),
+				Data: hex.EncodeToString(env.w.privateKey.PubKey().SerializeCompressed())}})
+			v.Assume(serr == nil)
+			secret = s
+		}
+		p := env.foreignProof(fmt.Sprintf("tok%d", i), uint64(1)<<e, secret)
+		if v.Int(fmt.Sprintf("tok%d.dleq", i), 0, 1) == 0 {
+			p.DLEQ = nil
+		}
+		ps = append(ps, p)
+		total = v.ZAdd(total, v.ZU(p.Amount))
+	}
+	_ = issued0
+	tok, terr := cashu.NewTokenV4(ps, env.mint.URL, cashu.Sat, true)
+	v.Assume(terr == nil)
+	fee := env.mint.fee(ps)
+	l := env.snapshot()
+	l.wallet0 = v.ZAdd(l.wallet0, total)
+	got, err := env.w.Receive(tok, false)
+	if locked {
+		// stated: a NUT-10 secret (JSON text starting with '[') is never equal to a NUT-13 secret (64 hex digits); the
+		// summary of the NUT-10 serialiser hands out opaque strings, so the engine has to be told
+		for _, q := range env.db.proofs {
+			for _, p := range ps {
+				v.Assume(q.Secret != p.Secret)
+			}
+		}
+	}
+	if err == nil {
+		v.Reach("received")
+		if locked {
+			v.Reach("received-locked")
+		}
+		v.Assert(v.ZEq(v.ZAdd(v.ZU(got), v.ZU(fee)), total), "C17 receive: the wallet reports exactly the token value minus the mint's input fee")
+	} else {
+		v.Reach("receive-failed")
+		l.wallet0 = v.ZSub(l.wallet0, total)
+	}
+	// the only way to fail against this mint: the token is worth no more than its fee
+	v.Assert(v.Or(err == nil, v.ZLe(total, v.ZU(fee))), "C17 receive: a genuine token with valid DLEQ data worth more than its fee is accepted")
+	env.checkConservation(l, "receive (token with DLEQ)")
+	env.checkNoLeak("receive (token with DLEQ)")
 }
